@@ -236,6 +236,15 @@ def run_history(mode, n, pseed, bounds_kind, fd_opts, ops, stats):
             x = big[:, 0]  # non-contiguous view holding the same values
         elif how == "keep":
             live["live%d" % (len(live) % 2)] = x
+        elif how == "float32":
+            x = x.astype(np.float32)  # another dtype: the requested point is its float64 value
+            if not ((x >= lb).all() and (x <= ub).all()):
+                x = np.clip(x.astype(float), lb, ub)
+        elif how == "readonly":
+            x = np.array(x, copy=True)
+            x.flags.writeable = False
+        elif how == "list":
+            x = [float(v) for v in x]
         xb = np.ascontiguousarray(x, dtype=float).tobytes()
         x_req = np.array(x, dtype=float, copy=True)
         model_has_f = cell_x == xb and has_f
@@ -358,7 +367,7 @@ def gen(rng, tier, index):
                 ops.append({"op": "fault", "what": str(choice(rng, ["mutate_passed_array", "mutate_returned", "mutate_returned", "scribble_on", "reuse_buf_on", "raise_next_fun", "raise_next_grad"])), "skip": int(rng.integers(0, 3))})
             else:
                 p = choice(rng, [0, 1, 2, 0, 1, 2, "fresh", "live0", "live1", "twin0", "twin1", "near0", "near2"])
-                ops.append({"op": str(choice(rng, OPS)), "p": p, "as": str(choice(rng, ["copy", "copy", "view", "keep"]))})
+                ops.append({"op": str(choice(rng, OPS)), "p": p, "as": str(choice(rng, ["copy", "copy", "view", "keep", "float32", "readonly", "list"]))})
         hists.append(ops)
     base.update({"kind": "random", "mode": mode, "histories": hists})
     return base
